@@ -275,7 +275,7 @@ int main()
                 else if (t[1] == "depth") ScriptExecutionStack::SetMaxStackDepth(std::stoull(t[2]));
                 else if (t[1] == "clockstep") g_clockStep = std::stoull(t[2]);
                 else if (t[1] == "developer") { g_developer = t[2] == "1"; attachStreams(); }
-                else if (t[1] == "stream" && t.size() == 4) { g_streams[std::stoul(t[2]) % 5] = t[3] == "1"; if (g_c14obs) g_streams[0] = true; attachStreams(); }
+                else if (t[1] == "stream" && t.size() == 4) { g_streams[std::stoul(t[2]) % 5] = t[3] == "1"; attachStreams(); }
                 else status = "bad-op";
             } else if (op == "c14" && t.size() >= 8) {
                 // c14 <hex> prot=<b> max=<ms> step=<ms> depth=<n> streams=<5 bits> dev=<b> [## ...]
